@@ -262,25 +262,45 @@ def main_wrap(fn):
         sys.exit(2)
 
 
-def validate_ledger(v, hooks_path, cases_path, tag="ledger"):
+def validate_ledger(v, hooks_path, cases_path, tag="ledger", chunk_lines=250000):
     """impl -> spec for the consumption ledger: hook events of real runs validated by TLC against LedgerTrace.tla;
-    returns (events, runs)"""
+    the recording is cut at run boundaries into chunks TLC can hold in memory; returns (events, runs)"""
     import re
-    t = run_tlc("LedgerTrace", "LedgerTrace.cfg", env={"TRACE": hooks_path}, workers=1,
-                extra_java="-Xss1g -Dtlc2.tool.queue.IStateQueue=StateDeque", timeout=3600)
-    rej = []
-    for l in open(t["out"], errors="replace"):
-        m = re.search(r'<<"REJECT", (\d+), "(\w+)">>', l)
-        if m:
-            rej.append((int(m.group(1)), m.group(2)))
     events = runs = 0
-    ends = []          # line number of each end event -> run index
+    ends = []          # (line number of each end event, run index)
+    chunks = []        # (path, first line number - 1)
+    out = None
+    n_in_chunk = 0
     with open(hooks_path) as f:
         for i, l in enumerate(f, 1):
+            if out is None:
+                cp = f"{hooks_path}.part{len(chunks)}"
+                out = open(cp, "w")
+                chunks.append((cp, i - 1))
+                n_in_chunk = 0
+            out.write(l)
+            n_in_chunk += 1
             events += 1
             if l.startswith('{"class"'):
                 ends.append((i, json.loads(l)["run"]))
                 runs += 1
+                if n_in_chunk >= chunk_lines:
+                    out.close()
+                    out = None
+    if out is not None:
+        out.close()
+    rej = []
+    failed = None
+    for cp, off in chunks:
+        t = run_tlc("LedgerTrace", "LedgerTrace.cfg", env={"TRACE": cp}, workers=1,
+                    extra_java="-Xss1g -Dtlc2.tool.queue.IStateQueue=StateDeque", timeout=3600)
+        for l in open(t["out"], errors="replace"):
+            m = re.search(r'<<"REJECT", (\d+), "(\w+)">>', l)
+            if m:
+                rej.append((int(m.group(1)) + off, m.group(2)))
+        os.remove(cp)
+        if not t["ok"] and failed is None:
+            failed = t["tail"]
     if rej:
         cases = list(read_ndjson(cases_path))
         for line, ev in rej:
@@ -288,6 +308,6 @@ def validate_ledger(v, hooks_path, cases_path, tag="ledger"):
             c = cases[run] if run is not None and run < len(cases) else {}
             v.report({"rule": "ledger_protocol", "event": ev},
                      {"def": c.get("def"), "line": c.get("line"), "event_line": line, "event": ev, "hooks": hooks_path})
-    if not t["ok"]:
-        raise ToolError("LedgerTrace did not complete:\n" + t["tail"])
+    if failed is not None:
+        raise ToolError("LedgerTrace did not complete:\n" + failed)
     return events, runs
